@@ -70,7 +70,10 @@ def run(tier, seed):
         # the third realisation re-uses asset objects that were wrapped (and set up) before in a structured asset with a narrower window
         r3 = R.Real(flat_cfg(cfg))
         r3.prewrap = (2, cfg['T'])
-        return [R.Real(cfg, struct=cfg['struct']), R.Real(flat_cfg(cfg)), r3]
+        # ... and the fourth wraps a Portfolio object that was set up on its own before
+        r4 = R.Real(cfg, struct=cfg['struct'])
+        r4.preflat = True
+        return [R.Real(cfg, struct=cfg['struct']), R.Real(flat_cfg(cfg)), r3, r4]
     common.spec_to_code(chk, scfgs, reals, relax=RELAX, neg_cfgs=scfgs[seed % 2::2] if not th else scfgs, tag='structured')
     common.code_to_spec(chk, scfgs, lambda c: R.Real(flat_cfg(c)), tag='structured_flat', chk_fields=())
     for cfg in scfgs:
